@@ -179,9 +179,19 @@ func diffAt(x, y []byte) string {
 }
 
 // run executes the binary in a fresh directory below dir; args may name input files by absolute path.
+// leftovers, when set, are written into the working directory of the next run before it starts: the files an
+// earlier, longer execution of the same command line left behind (every output file is rewritten from scratch).
+var leftovers map[string][]byte
+
 func run(bin, dir string, k int, args []string) outcome {
 	wd := filepath.Join(dir, fmt.Sprintf("run%d", k))
 	os.MkdirAll(wd, 0755)
+	for rel, b := range leftovers {
+		p := filepath.Join(wd, rel)
+		os.MkdirAll(filepath.Dir(p), 0755)
+		os.WriteFile(p, append(append([]byte{}, b...), bytes.Repeat([]byte("left over by an earlier execution\n"), 12)...), 0644)
+	}
+	leftovers = nil
 	cmd := exec.Command(bin, args...)
 	cmd.Dir = wd
 	cmd.Env = append(os.Environ(), "GORACE=exitcode=66 halt_on_error=1")
@@ -608,6 +618,9 @@ var table = []entry{
 	{"trim-name-auto", false, func(in inputs) []string { return a("trim", "name", "-i", in.nt, "-a", "-m", "map.out") }},
 	{"trim-seq", false, func(in inputs) []string { return a("trim", "seq", "-i", in.nt, "-n", "5", "-s") }},
 	{"rename", false, func(in inputs) []string { return a("rename", "-i", in.nt, "-m", in.mapf) }},
+	{"rename-regexp-colliding-names", false, func(in inputs) []string {
+		return a("rename", "-i", in.nt, "-e", "S(\\d)\\d+", "-b", "T$1", "-m", "map.out")
+	}},
 	{"rename-shifted-names", false, func(in inputs) []string { return a("rename", "-i", in.nt, "-m", in.mapShift) }},
 	{"rename-shifted-names-phylip", false, func(in inputs) []string { return a("rename", "-i", in.ntPhy, "-p", "-m", in.mapShift) }},
 	{"rename-regexp", false, func(in inputs) []string {
@@ -678,6 +691,10 @@ func runCommands(c *mon.Case) {
 				// drives the recorded tar time stamp finding on every run and lets a time stamp in any other compressed
 				// container show; decides nothing (identical bytes are demanded whatever the delay)
 				time.Sleep(1100 * time.Millisecond)
+			}
+			if k == len(threads)*reps-1 && k > 0 && len(first.files) > 0 {
+				leftovers = first.files // the last run starts in a directory that already holds (longer) output files
+				c.Count("commands:run-over-leftover-files")
 			}
 			o := run(bin, dir, k, append(append([]string{}, args...), "-t", t))
 			if k == 0 {
